@@ -35,3 +35,22 @@ else:
 cur["findings"].sort(key=lambda f: (f["property"], f["status"], f["key"]))
 json.dump(cur, open("known_findings.json", "w"), indent=1)
 print(len(cur["findings"]), "findings")
+
+# fill in the /repo commit of every fixed entry from fixes/commits.json
+import os
+cj = os.path.join(os.path.dirname(os.path.abspath(__file__)), "..", "fixes", "commits.json")
+if os.path.exists(cj):
+    c = json.load(open(cj))
+    d = json.load(open("known_findings.json"))
+    for f in d["findings"]:
+        if f.get("status") != "fixed":
+            continue
+        for prop, sub, patch in c["rules"]:
+            if f["property"] == prop and sub in f["key"]:
+                f["commit"] = c["hashes"][patch]
+                f["line"] = f.get("line", "fixed: property=%s COMMIT %s" % (prop, f.get("description", "")[:200])).replace("COMMIT", c["hashes"][patch])
+                break
+    json.dump(d, open("known_findings.json", "w"), indent=1)
+    left = [f["key"] for f in d["findings"] if f.get("status") == "fixed" and f.get("commit") in (None, "COMMIT")]
+    if left:
+        print("fixed entries without commit:", left)
